@@ -90,7 +90,7 @@ func realC17Pn(raw json.RawMessage) any {
 	if !ok {
 		return c17Bad("service s missing")
 	}
-	return map[string]any{"ok": map[string]any{"name": p.Name, "env": out, "probe": s.Labels["probe"]}}
+	return map[string]any{"ok": c17Observe(p, map[string]any{"name": p.Name, "env": out, "probe": s.Labels["probe"]})}
 }
 
 func c17PnJudge(args, real, drv json.RawMessage) *core.Verdict {
@@ -120,6 +120,11 @@ func c17PnJudge(args, real, drv json.RawMessage) *core.Verdict {
 		}
 		if v, ok := r.Ok.Env["COMPOSE_PROJECT_NAME"]; !ok || v != r.Ok.Name {
 			return core.Fail("loader-entry:name-not-exported", fmt.Sprintf("Project.Name=%q but Environment[COMPOSE_PROJECT_NAME]=%q (set=%v)", r.Ok.Name, v, ok))
+		}
+		for _, k := range c17ResKeys {
+			if got, want := r.Ok.Res[k], r.Ok.Name+"_"+k; got != want {
+				return core.Fail("loader-entry:implicit-resource-name:"+how, fmt.Sprintf("Project.Name=%q but the unnamed resource %q is called %q (want %q)", r.Ok.Name, k, got, want))
+			}
 		}
 		if a.Imp && r.Ok.Name != a.Name {
 			return core.Fail("loader-entry:name-precedence:expected=explicit,got=other", fmt.Sprintf("imperatively set name %q, the load produced %q", a.Name, r.Ok.Name))
